@@ -5,6 +5,7 @@ import (
 	"flag"
 	"fmt"
 	"os"
+	"os/exec"
 	"path/filepath"
 	"regexp"
 	"sort"
@@ -117,7 +118,11 @@ func discharge(obs []*Obligation, timeoutS int, all bool) []ObResult {
 				if ob.Expect == "sat" && t > 10 {
 					t = 10
 				}
-				r = Solve(ob.Script(nil), t, all && ob.Expect != "sat")
+				if ob.Expect == "sat" {
+					r = Solve(ob.Script(nil), t, false)
+				} else {
+					r = solveWithSplit(ob, t, all)
+				}
 			}
 			ok := r.Status == "unsat"
 			if ob.Expect == "sat" {
@@ -130,11 +135,65 @@ func discharge(obs []*Obligation, timeoutS int, all bool) []ObResult {
 	return out
 }
 
+// solveWithSplit tries the obligation as one query first (short budget) and, if that is not decided,
+// as a case split over the path condition (every case must be unsat).
+func solveWithSplit(ob *Obligation, timeoutS int, all bool) SolveResult {
+	first := timeoutS
+	if first > 6 {
+		first = 6
+	}
+	r := Solve(ob.Script(nil), first, all)
+	if r.Status == "unsat" || r.Status == "sat" || r.Status == "disagree" {
+		return r
+	}
+	total := r.Seconds
+	for _, max := range []int{6, 16, 40} {
+		cases := ob.SplitPC(max)
+		if len(cases) <= 1 {
+			break
+		}
+		res := make([]SolveResult, len(cases))
+		var wg sync.WaitGroup
+		for i, c := range cases {
+			wg.Add(1)
+			go func(i int, c []*Term) {
+				defer wg.Done()
+				res[i] = Solve(ob.ScriptWith(c, nil), timeoutS, false)
+			}(i, c)
+		}
+		wg.Wait()
+		okAll := true
+		var secs float64
+		for _, cr := range res {
+			secs += cr.Seconds
+			if cr.Status == "sat" {
+				cr.Solver = cr.Solver + fmt.Sprintf("/split%d", len(cases))
+				return cr
+			}
+			if cr.Status != "unsat" {
+				okAll = false
+			}
+		}
+		total += secs
+		if okAll {
+			return SolveResult{Status: "unsat", Solver: fmt.Sprintf("split%d", len(cases)), Seconds: total, All: map[string]string{}}
+		}
+	}
+	if timeoutS > first {
+		r2 := Solve(ob.Script(nil), timeoutS, all)
+		r2.Seconds += total
+		return r2
+	}
+	return r
+}
+
 func cmdUnit(args []string) int {
 	fs := flag.NewFlagSet("unit", flag.ExitOnError)
 	verbose := fs.Bool("v", false, "verbose")
 	dump := fs.String("dump", "", "write the SMT script of the obligation with this name (substring) to stdout")
 	timeout := fs.Int("t", 10, "timeout per query (s)")
+	propFlag := fs.String("p", "", "only the clauses serving this property")
+	modelFlag := fs.Bool("model", false, "for sat obligations, write the full z3 model to /tmp/hvc-model-<name>.txt")
 	if len(args) < 2 {
 		usage()
 	}
@@ -150,6 +209,7 @@ func cmdUnit(args []string) int {
 		return 2
 	}
 	t0 := time.Now()
+	activeProp = *propFlag
 	res := VerifyUnit(prog, cs, uc)
 	for _, e := range res.Errors {
 		fmt.Println("ERROR:", e)
@@ -177,6 +237,9 @@ func cmdUnit(args []string) int {
 		if *verbose || !r.OK {
 			fmt.Printf("%s %-60s %-8s %-7s %.2fs  %s\n", mark, r.Ob.Name, r.Res.Status, r.Res.Solver, r.Res.Seconds, r.Ob.Pos)
 		}
+		if *modelFlag && !r.OK && r.Res.Status == "sat" {
+			writeModel(r.Ob)
+		}
 	}
 	if res.Exec != nil && *verbose {
 		var ab []string
@@ -193,6 +256,27 @@ func cmdUnit(args []string) int {
 		return 1
 	}
 	return 0
+}
+
+// writeModel finds a satisfiable case of the obligation and stores z3's model (debugging aid).
+func writeModel(ob *Obligation) {
+	cases := [][]*Term{nil}
+	for _, max := range []int{6, 16, 40} {
+		cases = append(cases, ob.SplitPC(max)...)
+	}
+	for _, c := range cases {
+		script := strings.Replace(ob.ScriptWith(c, nil), "(check-sat)", "(check-sat)\n(get-model)", 1)
+		f := filepath.Join(scratch(), "model.smt2")
+		os.WriteFile(f, []byte(script), 0o644)
+		out, _ := exec.Command("z3-new", "-T:20", f).CombinedOutput()
+		if strings.HasPrefix(string(out), "sat") {
+			name := "/tmp/hvc-model-" + sanitize(ob.Name) + ".txt"
+			os.WriteFile(name, out, 0o644)
+			os.WriteFile(name+".smt2", []byte(script), 0o644)
+			fmt.Println("   model written to", name)
+			return
+		}
+	}
 }
 
 func cmdList() int {
@@ -323,6 +407,7 @@ func cmdCheck(args []string) int {
 	var mu sync.Mutex
 	// units are independent but share the (read-only) program; Exec instances do not share mutable state
 	// except the package-level caches guarded here by running generation sequentially.
+	activeProp = prop
 	for i, u := range units {
 		_ = mu
 		results[i] = VerifyUnit(prog, cs, u)
